@@ -4,6 +4,7 @@ from common import *
 import tier_b as tb
 import model_heapgraph as mh
 import model_sync as ms
+import model_exhaust as mx
 
 REAL_B = ["the whole linked executable: compiled Dora code (both code generators), pkgs/std (thread.dora lock-word protocol, collections), dora-runtime (threads, safepoints, wait lists, all four collectors, TLABs, write barrier slow path, parallel marking/evacuation with work stealing and termination detection, concurrent sweeper, heap controller), dora-startup",
           "GC worker pool and concurrent sweeper pool run as simulator tasks (facade crates over shuttle)"]
@@ -75,7 +76,7 @@ def hg_expect(argv, run):
 
 
 def run_tier_b_property(prop, tier, quick_s, thorough_s, drivers, collectors, codegens, make_run, shrink, expect_fn, level_text,
-                        fault_free_share=0.15, extra_cov=None, max_runs=10**9):
+                        fault_free_share=0.15, extra_cov=None, max_runs=10**9, key_fn=None):
     t0 = time.time()
     exes = tb.build_executables(drivers, collectors, codegens)
     budget = tier_budget(tier, quick_s, thorough_s)
@@ -122,8 +123,11 @@ def run_tier_b_property(prop, tier, quick_s, thorough_s, drivers, collectors, co
                 res = tb.execute(run, exes)
                 with lock:
                     done[i] = (run, res)
-                    if tb.classify(run, res) is not None:
-                        state["stop"] = True
+                    v = tb.classify(run, res)
+                    if v is not None:
+                        key = key_fn(run, v) if key_fn else "%s:%s" % (run["exe"][0], v[0])
+                        if match_known(prop, key) is None:
+                            state["stop"] = True
 
         threads = [threading.Thread(target=worker) for _ in range(JOBS)]
         for t in threads:
@@ -132,17 +136,17 @@ def run_tier_b_property(prop, tier, quick_s, thorough_s, drivers, collectors, co
             t.join()
         for i in sorted(done):
             batch.account(*done[i])
-        return state["next"]
+        return state["stop"]
 
-    run_lazy(ff, 0, True, budget * fault_free_share)
+    stopped = run_lazy(ff, 0, True, budget * fault_free_share)
     fb = tb.Batch(prop, exes)
-    if not ff.violations:
+    if not stopped:
         run_lazy(fb, 1_000_000, False, budget * (1 - fault_free_share))
     exit_code = 0
     reported = []
     for b in (ff, fb):
         if b.violations:
-            ec, rep = tb.handle_violations(prop, b, exes, shrink, expect_fn)
+            ec, rep = tb.handle_violations(prop, b, exes, shrink, expect_fn, key_fn)
             exit_code = max(exit_code, ec)
             reported += rep
     wall = time.time() - t0
@@ -263,3 +267,66 @@ def c09_tier_b(tier, quick_s=60, thorough_s=1200):
         "C09", tier, quick_s=quick_s, thorough_s=thorough_s, drivers=["sync"], collectors=["copy", "sweep", "swiper"], codegens=["cannon", "boots"],
         make_run=sync_run, shrink=sync_shrink, expect_fn=sync_expect,
         level_text="seeded search over generated lock/condition/barrier/queue/join/atomic scripts (schedule-independent expected final state) x collector x code generator x schedule x injected collections that move mutex/condition objects while threads are queued; oracle = model output, in-driver exclusion assertions, deadlock detection (all tasks blocked = lost wake-up), no runtime assertion, M-stw")
+
+
+# ---------------------------------------------------------------------------------- C13
+
+def ex_run(seed, prop, i, fault_free, collectors=("zero", "copy", "sweep", "swiper"), codegens=("cannon", "boots")):
+    wl = tb.stream(seed, prop, i, "workload")
+    cfg = tb.stream(seed, prop, i, "config")
+    gc = cfg.choices(list(collectors), [1 if c == "zero" else 4 for c in collectors])[0]
+    cg = cfg.choice(list(codegens))
+    heap_mb = cfg.choice([4, 8, 16, 32])
+    script = mx.generate(wl, heap_mb << 20, gc)
+    flags = ["--max-heap-size=%dM" % heap_mb, "--gc-worker=%d" % cfg.choice([1, 2, 4])]
+    if script[0] == 1:
+        # number of objects retained before the heap is exhausted
+        objsize = mx.ESZ.get(script[3], 32) * script[4] + 16 if script[3] != 9 else 32
+        nobjects = (heap_mb << 20) // max(objsize, 16)
+    else:
+        nobjects = 0
+    if cfg.random() < 0.15 and nobjects < 20000:
+        # without TLABs every allocation takes the allocator locks: keep such runs short
+        flags.append("--disable-tlab")
+    if gc == "swiper" and cfg.random() < 0.4:
+        flags.append("--gc-young-size=%dM" % cfg.choice([1, 2]))
+    faults = tb.draw_faults(cfg, fault_free)
+    tb.cap_fault_rates(faults, 30000 + nobjects, gc, heap_mb, False, run_budget_ms=600)
+    sim = {"seed": cfg.getrandbits(48), "policy": tb.draw_policy(cfg, 3 + script[2], 3000), "hot": 0 if fault_free else cfg.choice([0, 300, 3000]),
+           "maxsteps": 400_000_000}
+    sim.update(faults)
+    alts = mx.expected(script, heap_mb << 20, gc)
+    return {"index": i, "exe": ["exhaust", gc, cg, "sim"], "argv": script, "dora_flags": " ".join(flags), "sim": sim,
+            "expect": {"alternatives": alts}, "timeout": 120, "fault_free": fault_free,
+            "tags": {"gc": gc, "codegen": cg, "mode": script[0], "where": script[1], "bystanders": script[2], "heap_mb": heap_mb,
+                     "policy": sim["policy"].split(":")[0], "fault_free": fault_free}}
+
+
+def ex_shrink(argv):
+    mode, where, nby, a, b = argv
+    if nby > 0:
+        yield [mode, where, 0, a, b]
+        yield [mode, where, nby - 1, a, b]
+    if where != 0:
+        yield [mode, 0, nby, a, b]
+
+
+def ex_expect(argv, run):
+    heap_mb = run["tags"]["heap_mb"]
+    return {"alternatives": mx.expected(argv, heap_mb << 20, run["exe"][1])}
+
+
+def c13(tier):
+    return run_tier_b_property(
+        "C13", tier, quick_s=60, thorough_s=1200, drivers=["exhaust"], collectors=["zero", "copy", "sweep", "swiper"], codegens=["cannon", "boots"],
+        make_run=ex_run, shrink=ex_shrink, expect_fn=ex_expect, key_fn=ex_key,
+        level_text="seeded search over exhaustion scripts (single requests with boundary lengths x element sizes, retain-until-OOM, unbounded recursion with 7 frame shapes, churn with a small live set) on main or a spawned thread with 0-4 bystander threads x collector x code generator x heap size x schedule x injected collections; oracle = documented trap (status + first stderr line) or the normal result, stdout delivered before the trap, never a signal / Rust panic / deadlock / step-budget overrun")
+
+
+def ex_key(run, v):
+    mode, where, nby, a, b = run["argv"]
+    if mode == 0:
+        kind = "negative-length" if b < 0 else "huge-length"
+        cls = v[0] if v[0].startswith("trap:") else v[0].split(":")[0]
+        return "exhaust:%s:%s:%s" % (run["exe"][2], kind, cls)
+    return "exhaust:%s:mode%d:%s" % (run["exe"][2], mode, v[0])
